@@ -1669,6 +1669,11 @@ func (sp *ServiceProvider) ValidateLogoutResponseForm(postFormData string) error
 		return retErr
 	}
 
+	if doc.Root() == nil {
+		retErr.PrivateErr = errors.New("invalid xml: no root")
+		return retErr
+	}
+
 	if err := sp.validateSignature(doc.Root()); err != nil {
 		retErr.PrivateErr = err
 		return retErr
@@ -1711,6 +1716,11 @@ func (sp *ServiceProvider) ValidateLogoutResponseRedirect(queryParameterData str
 	doc := etree.NewDocument()
 	if err := doc.ReadFromBytes(gr); err != nil {
 		retErr.PrivateErr = err
+		return retErr
+	}
+
+	if doc.Root() == nil {
+		retErr.PrivateErr = errors.New("invalid xml: no root")
 		return retErr
 	}
 
